@@ -677,6 +677,42 @@ Print Assumptions w_write_reset_announced.
 Print Assumptions frame_bits_bounded.
 Print Assumptions dict_measure_bounded.
 
+(* ------------------------------------------------------------------ reset performed <-> announced *)
+(* For ANY list of frames: the k-th frame of the encoded stream is [frame_encode] from the state
+   the previous frames left; its records are encoded from a state whose dictionaries are empty
+   when the frame carries RestartDictionaries and are the previous frame's dictionaries otherwise.
+   The writer cannot "reset without announcing" nor "announce without resetting": the flag is the
+   only input of the reset. *)
+Theorem stream_encode_reset_iff_flag : forall t ws F fl recs G,
+  let ws_k := stream_end t ws F in            (* state left by the frames before *)
+  let st_k := w_restart fl ws_k in            (* state the records of the frame are encoded from *)
+  stream_encode t ws (F ++ (fl, recs) :: G) =
+    stream_encode t ws F ++ (fl, snd (frame_encode t fl ws_k recs))
+      :: stream_encode t (stream_end t ws (F ++ [(fl, recs)])) G /\
+  fst (frame_encode t fl ws_k recs) = w_clear (fold_left (fun st a => enc [] t a st) recs st_k) /\
+  (flag_dicts fl = true -> w_sdict st_k = PM.empty _ /\ w_tlen st_k = PM.empty _) /\
+  (flag_dicts fl = false -> w_sdict st_k = w_sdict ws_k /\ w_tlen st_k = w_tlen ws_k).
+Proof.
+  intros t ws F fl recs G ws_k st_k. split; [apply stream_encode_split|]. split; [reflexivity|].
+  destruct (restart_dicts fl ws_k) as [H1 H2]. fold st_k in H1, H2.
+  split; intros E; rewrite E in H1, H2; split; assumption.
+Qed.
+Print Assumptions stream_encode_reset_iff_flag.
+
+(* in the stream of the writer loop, the frames that carry RestartDictionaries (hence, by the
+   theorem above, the frames encoded from cleared dictionaries) are exactly those for which the
+   limiter of Limits.v asked for a reset (Limits.reset_announced / Props/C08.C08_reset_announced
+   characterise [l_next_flag]) *)
+Theorem w_write_all_flags : forall cfg base esz t ws0 recs,
+  N.testbit base 0 = c_flag_dicts cfg ->
+  map (fun f => flag_dicts (fst f)) (w_write_all cfg base esz t ws0 recs) =
+  map fst (l_frames (l_run cfg (w_sizes cfg base esz t ws0 recs))).
+Proof.
+  intros cfg base esz t ws0 recs Hb. rewrite <- (w_frames_abstract cfg base esz t Hb).
+  unfold w_write_all, strip. rewrite !map_map. reflexivity.
+Qed.
+Print Assumptions w_write_all_flags.
+
 (* ------------------------------------------------------------------ (5) the round trip *)
 (* What the reader returns for the stream the writer loop produces: exactly the records handed to
    Write(), in order, whatever the limits did to the frame structure.  [stream_ok] is the boolean
@@ -759,3 +795,110 @@ Proof.
 Qed.
 Print Assumptions w_write_all_correct.
 
+(* ------------------------------------------------------------------ not vacuous *)
+(* examples/ints (struct Record { uint64 }), MaxUncompressedFrameByteSize = 3 (24 bits),
+   FrameRestartFlags = RestartCodecs: nine records of 9, 17, 9, 9, 25, 9, 9, 9, 9 bits make four
+   frames; the last one is closed by Flush() *)
+Definition exw_cfg : lcfg := mkCfg 3 100 false.
+Definition exw_rec (v : N) : wire := WStruct 1 0 [Some (WU64 v)].
+Definition exw_recs : list wire := map exw_rec [5; 300; 7; 7; 100000; 9; 10; 11; 12].
+Definition exw_frames : list (N * list wire) :=
+  [(0, map exw_rec [5; 300]); (4, map exw_rec [7; 7; 100000]); (4, map exw_rec [9; 10; 11]);
+   (4, map exw_rec [12])].
+
+Example exw_sizes : w_sizes exw_cfg 4 8 ex_t wst0 exw_recs =
+  [(9, 0); (17, 0); (9, 0); (9, 0); (25, 0); (9, 0); (9, 0); (9, 0); (9, 0)].
+Proof. vm_compute. reflexivity. Qed.
+
+Example exw_frames_eq : w_write_all exw_cfg 4 8 ex_t wst0 exw_recs = exw_frames.
+Proof. vm_compute. reflexivity. Qed.
+
+Example exw_stream_ok : stream_ok ex_sizes 10 ex_t exw_frames wst0 RNil (PM.empty _) = true.
+Proof. vm_compute. reflexivity. Qed.
+
+Definition exw_bytes : source :=
+  SrcBytes (emit_frame 0 (emit_var_header [] []) ++ emit_all (stream_encode ex_t wst0 exw_frames)).
+
+Example exw_open : exists r0,
+  reader_open sch_ints_ints sch_ints_ints_root_Record exw_bytes = inr r0 /\ rd_tree r0 = ex_t.
+Proof. eexists. split; [vm_compute; apply f_equal; apply eq_refl|vm_compute; reflexivity]. Qed.
+
+(* every hypothesis of the composed theorem holds for this stream *)
+Example exw_roundtrip : forall r0,
+  reader_open sch_ints_ints sch_ints_ints_root_Record exw_bytes = inr r0 ->
+  read_all ex_sizes 10 10 10 r0 =
+  (exw_recs, stream_values ex_t exw_frames RNil (PM.empty _), Some RdEnd).
+Proof.
+  intros r0 Hop.
+  assert (Ht : rd_tree r0 = ex_t).
+  { destruct exw_open as (r & Hr & Ht). rewrite Hr in Hop. inversion Hop; subst. exact Ht. }
+  pose proof (w_write_all_roundtrip_open_bytes exw_cfg 4 8 sch_ints_ints sch_ints_ints_root_Record ex_sizes 10 0
+                (emit_var_header [] []) ex_t exw_recs r0 10 10) as P.
+  cbv zeta in P. rewrite exw_frames_eq in P.
+  apply (P eq_refl Hop Ht exw_stream_ok); cbn; lia.
+Qed.
+
+(* a schema with a string dictionary: struct Record { string dict(0); uint64 }.
+   MaxTotalDictSize = 40, MaxUncompressedFrameByteSize = 4 (32 bits), RestartCodecs.  The strings
+   "abc", "de", "fghi" account 19 + 18 + 20 bytes: the limit is reached by the fourth record, the
+   dictionaries are cleared and the next frame carries RestartDictionaries (flags 5); in that
+   frame "abc" is a new entry again (19 bytes measured on the real encoder state). *)
+Definition exd_sc : schema :=
+  mkSchema [mkSdef false None [mkField (TPrim PString (Some 0)) false; mkField (TPrim PUint64 None) false]] [].
+Definition exd_t : etree := fst (build_root exd_sc 0 None).
+Definition exd_rec (s : bytes) (v : N) : wire := WStruct 3 0 [Some (WStr s); Some (WU64 v)].
+Definition exd_recs : list wire :=
+  [exd_rec [97; 98; 99] 1; exd_rec [97; 98; 99] 2; exd_rec [100; 101] 3; exd_rec [102; 103; 104; 105] 4;
+   exd_rec [97; 98; 99] 5; exd_rec [100; 101] 6; exd_rec [120] 7].
+Definition exd_cfg : lcfg := mkCfg 4 40 false.
+Definition exd_frames : list (N * list wire) :=
+  [(0, [exd_rec [97; 98; 99] 1]);
+   (4, [exd_rec [97; 98; 99] 2; exd_rec [100; 101] 3]);
+   (4, [exd_rec [102; 103; 104; 105] 4]);
+   (5, [exd_rec [97; 98; 99] 5]);
+   (4, [exd_rec [100; 101] 6]);
+   (4, [exd_rec [120] 7])].
+
+Example exd_sizes : w_sizes exd_cfg 4 8 exd_t wst0 exd_recs =
+  [(42, 19); (18, 0); (34, 18); (50, 20); (42, 19); (34, 18); (26, 0)].
+Proof. vm_compute. reflexivity. Qed.
+
+Example exd_frames_eq : w_write_all exd_cfg 4 8 exd_t wst0 exd_recs = exd_frames.
+Proof. vm_compute. reflexivity. Qed.
+
+(* only the dictionary limit (frame limit out of reach): one reset, announced *)
+Example exd_frames_dict_only : w_write_all (mkCfg 1000 40 false) 0 8 exd_t wst0 exd_recs =
+  [(0, [exd_rec [97; 98; 99] 1; exd_rec [97; 98; 99] 2; exd_rec [100; 101] 3; exd_rec [102; 103; 104; 105] 4]);
+   (1, [exd_rec [97; 98; 99] 5; exd_rec [100; 101] 6; exd_rec [120] 7])].
+Proof. vm_compute. reflexivity. Qed.
+
+(* FrameRestartFlags with RestartDictionaries: one record per frame, every frame but the first
+   flagged *)
+Example exd_frames_every : map (fun f => (fst f, length (snd f)))
+    (w_write_all (mkCfg 1000 40 true) 5 8 exd_t wst0 exd_recs) =
+  [(0, 1%nat); (5, 1%nat); (5, 1%nat); (5, 1%nat); (5, 1%nat); (5, 1%nat); (5, 1%nat)].
+Proof. vm_compute. reflexivity. Qed.
+
+Example exd_stream_ok : stream_ok ex_sizes 10 exd_t exd_frames wst0 RNil (PM.empty _) = true.
+Proof. vm_compute. reflexivity. Qed.
+
+Definition exd_bytes : source :=
+  SrcBytes (emit_frame 0 (emit_var_header [] []) ++ emit_all (stream_encode exd_t wst0 exd_frames)).
+
+Example exd_open : exists r0, reader_open exd_sc 0 exd_bytes = inr r0 /\ rd_tree r0 = exd_t.
+Proof. eexists. split; [vm_compute; apply f_equal; apply eq_refl|vm_compute; reflexivity]. Qed.
+
+Example exd_roundtrip : forall r0,
+  reader_open exd_sc 0 exd_bytes = inr r0 ->
+  read_all ex_sizes 10 8 8 r0 = (exd_recs, stream_values exd_t exd_frames RNil (PM.empty _), Some RdEnd).
+Proof.
+  intros r0 Hop.
+  assert (Ht : rd_tree r0 = exd_t).
+  { destruct exd_open as (r & Hr & Ht). rewrite Hr in Hop. inversion Hop; subst. exact Ht. }
+  pose proof (w_write_all_roundtrip_open_bytes exd_cfg 4 8 exd_sc 0 ex_sizes 10 0
+                (emit_var_header [] []) exd_t exd_recs r0 8 8) as P.
+  cbv zeta in P. rewrite exd_frames_eq in P.
+  apply (P eq_refl Hop Ht exd_stream_ok); cbn; lia.
+Qed.
+Print Assumptions exw_roundtrip.
+Print Assumptions exd_roundtrip.
